@@ -385,7 +385,8 @@ class Tree:
         count = 0
         for ind in reversed(self.stack):
             count = count + 1
-            if ind.name == name:
+            # (the root can be given a name, but is not an open element)
+            if ind.name == name and ind is not self.outmost:
                 ind.closed = True
                 break
         else:
